@@ -266,7 +266,7 @@ def postInit (kind : String) (f : List (String × Val)) : Except PyErr Node := d
         let e ← match Val.asInt? (← get "end_dim") with | some s => pure s | Option.none => throw unmodelled
         let out := calcFlattenOutput shp s e
         if Py.prod shp != Py.prod out then throw .valueError
-        pure (leaf plain (it, typeDict "output" (shapeArray out)))
+        pure (leaf plain (it, typeDict "output" (flattenArray inner out)))
   | "Input" =>
       let it ← parseShapeArgument (← get "input_type") "input"
       let inner ← getItem it "input"
